@@ -150,6 +150,26 @@ def apply_path(ctx, repo, qual, must_clear):
                f"{fi.qual}: `{hp}.changes` is not cleared on every normal path after applying: the same changes are applied again with the next message", fi.loc)
 
 
+def consume_pairing(ctx, repo, rule):
+    """consume(): every popped datagram gets its own async_handle immediately followed by its own
+    async_handled (the callback that reports it), and async_handled invokes the callback once.
+    Shared with C15 (each discovery reply is reported individually)."""
+    c = repo.method("GeckoUdpProtocolHandler", "consume")
+    gc = cfg_of(c)
+    ah = calls_named(gc, "async_handle")
+    ad = calls_named(gc, "async_handled")
+    ok, why = False, f"found {len(ah)} async_handle and {len(ad)} async_handled call sites"
+    if len(ah) == 1 and len(ad) == 1:
+        from ..pathrules import followed_by
+        ok, why = followed_by(gc, ah[0][0], ad[0][0])
+    ctx.ob(rule, "consume::handle-then-handled-once", ok,
+           f"consume does not call async_handle then async_handled exactly once per datagram ({why}): the handler's decoded fields are single-slot state, so a datagram handled without its own handled-callback is overwritten by the next one before anybody sees it", c.loc)
+    ahd = repo.method("GeckoUdpProtocolHandler", "async_handled")
+    ga = cfg_of(ahd)
+    cb = [n for n in ga.stmt_nodes() if n.suspends and any(isinstance(x, ast.Call) and isinstance(x.func, ast.Attribute) and "on_handled" in x.func.attr and [ast.unparse(a) for a in x.args] == ["self", "sender"] for x in n.walk())]
+    ctx.ob(rule, "async_handled::calls-callback-once", len(cb) == 1 and ga.loop_of(cb[0]) is None, "async_handled does not invoke the callback exactly once", ahd.loc)
+
+
 def check(ctx):
     repo = Repo()
     ctx.rule("R1", "per-message reset (async): self.changes = [] dominates the decode loop on the STATP path only; no other writer")
@@ -183,16 +203,6 @@ def check(ctx):
     h = repo.own_method(ASYNC_H, "handle")
     body = [s for s in h.node.body if not (isinstance(s, ast.Expr) and isinstance(s.value, ast.Constant))]
     ctx.ob("R1", f"{ASYNC_H}.handle::inert", all(isinstance(s, ast.Pass) for s in body), f"{ASYNC_H}.handle is no longer inert: records could be decoded twice", h.loc)
-    # consume(): async_handle then async_handled exactly once each per popped datagram
-    c = repo.own_method("GeckoUdpProtocolHandler", "consume")
-    gc = cfg_of(c)
-    ah = calls_named(gc, "async_handle")
-    ad = calls_named(gc, "async_handled")
-    ok = len(ah) == 1 and len(ad) == 1 and gc.dom(ah[0][0], ad[0][0]) and not (gc.between(ah[0][0], ad[0][0]))
-    ctx.ob("R3", "consume::handle-then-handled-once", ok, "consume does not call async_handle then async_handled exactly once per datagram", c.loc)
-    ahd = repo.own_method("GeckoUdpProtocolHandler", "async_handled")
-    ga = cfg_of(ahd)
-    cb = [n for n in ga.stmt_nodes() if n.suspends and "_async_on_handled(self, sender)" in n.text()]
-    ctx.ob("R3", "async_handled::calls-callback-once", len(cb) == 1 and ga.loop_of(cb[0]) is None, "async_handled does not invoke the callback exactly once", ahd.loc)
+    consume_pairing(ctx, repo, "R3")
     ctx.assume("record geometry (4-byte position+word records, count byte) is decided under C04")
     ctx.note("Not decided: interleaving of partial updates with refreshes; an observer raising during the sync apply loop skips the for-else clear (documented residual).")
